@@ -30,6 +30,13 @@ class PathLimit(Exception):
     pass
 
 
+def modelled(exc):
+    """an exception the shim raises *on behalf of numpy/Python* (out-of-bounds index,
+    NEP-50 overflow ...): it is an outcome of the code under test, not a tool limit"""
+    exc._pyvc_modelled = True
+    return exc
+
+
 class Ctx:
     """state of one symbolic execution (one path)"""
 
@@ -818,13 +825,234 @@ def explore(fn, max_paths=4096):
 
                 frames = _tb.extract_tb(e.__traceback__)
                 inner = frames[-1].filename if frames else ""
-                if "/pyvc/" in inner or "/contracts/" in inner or "site-packages/numpy" in inner or isinstance(e, ImportError):
+                if getattr(e, "_pyvc_modelled", False):
+                    pass
+                elif "/pyvc/" in inner or "/contracts/" in inner or "site-packages/numpy" in inner or isinstance(e, ImportError):
                     where = " | ".join("%s:%d %s" % (f.filename.rsplit("/", 1)[-1], f.lineno, f.name) for f in frames[-5:])
                     raise Unsupported("%s: %s [%s]" % (type(e).__name__, e, where)) from e
                 paths.append(Path(c, exc=e))
         finally:
             CUR = None
+            for mod, attr, old in reversed(c.memo.get("stub_undo", [])):
+                setattr(mod, attr, old)
         work.extend(c.alternatives)
         if len(paths) > max_paths:
             raise PathLimit("more than %d paths" % max_paths)
     return paths, pruned
+
+
+# ----------------------------------------------------------------------------- 64-bit machine integers
+
+
+class SBV:
+    """numpy int64 / uint64 element with wrap-around semantics (z3 BitVec(64))"""
+
+    __slots__ = ("t", "signed")
+    W = 64
+
+    def __init__(self, t, signed=True):
+        self.t = t
+        self.signed = signed
+
+    @staticmethod
+    def _fits(k, signed):
+        return (-(2**63) <= k < 2**63) if signed else (0 <= k < 2**64)
+
+    def _lift(self, o, for_cmp=False):
+        if isinstance(o, SBV):
+            return o.t
+        if isinstance(o, (bool, _np.bool_)):
+            o = int(o)
+        if isinstance(o, (int, _np.integer)):
+            k = int(o)
+            if not SBV._fits(k, self.signed):
+                # NEP 50: a Python int that does not fit the array dtype
+                raise modelled(OverflowError("Python integer %d out of bounds for %s" % (k, "int64" if self.signed else "uint64")))
+            return z3.BitVecVal(k, 64)
+        raise TypeError("SBV with %r" % type(o))
+
+    def _bin(self, o, f):
+        try:
+            b = self._lift(o)
+        except TypeError:
+            return NotImplemented
+        sg = self.signed and (o.signed if isinstance(o, SBV) else True)
+        return SBV(f(self.t, b), sg)
+
+    def __add__(self, o):
+        return self._bin(o, lambda a, b: a + b)
+
+    __radd__ = __add__
+
+    def __sub__(self, o):
+        return self._bin(o, lambda a, b: a - b)
+
+    def __rsub__(self, o):
+        return self._bin(o, lambda a, b: b - a)
+
+    def __mul__(self, o):
+        return self._bin(o, lambda a, b: a * b)
+
+    __rmul__ = __mul__
+
+    def __neg__(self):
+        return SBV(-self.t, self.signed)
+
+    def __xor__(self, o):
+        return self._bin(o, lambda a, b: a ^ b)
+
+    __rxor__ = __xor__
+
+    def __and__(self, o):
+        return self._bin(o, lambda a, b: a & b)
+
+    __rand__ = __and__
+
+    def __or__(self, o):
+        return self._bin(o, lambda a, b: a | b)
+
+    __ror__ = __or__
+
+    def __invert__(self):
+        return SBV(~self.t, self.signed)
+
+    def __lshift__(self, k):
+        if isinstance(k, SBV):
+            raise Unsupported("symbolic shift amount")
+        k = int(k)
+        if k < 0:
+            raise Unsupported("negative shift")
+        if k >= 64:
+            return SBV(z3.BitVecVal(0, 64), self.signed)
+        return SBV(self.t << k, self.signed)
+
+    def __rshift__(self, k):
+        k = int(k)
+        if k >= 64:
+            k = 63 if self.signed else 64
+        if self.signed:
+            return SBV(self.t >> k, True)
+        return SBV(z3.LShR(self.t, k), False)
+
+    def _cmp(self, o, sf, uf, big_true, small_true):
+        """compare with numpy semantics; python ints outside the dtype range compare exactly"""
+        if isinstance(o, (int, _np.integer)) and not isinstance(o, bool):
+            k = int(o)
+            if not SBV._fits(k, self.signed):
+                hi = k >= (2**63 if self.signed else 2**64)
+                return big_true if hi else small_true
+        try:
+            b = self._lift(o)
+        except TypeError:
+            return NotImplemented
+        if isinstance(o, SBV) and o.signed != self.signed:
+            raise Unsupported("mixed signed/unsigned comparison")
+        return _mkbool(sf(self.t, b) if self.signed else uf(self.t, b))
+
+    def __lt__(self, o):
+        return self._cmp(o, lambda a, b: a < b, z3.ULT, True, False)
+
+    def __le__(self, o):
+        return self._cmp(o, lambda a, b: a <= b, z3.ULE, True, False)
+
+    def __gt__(self, o):
+        return self._cmp(o, lambda a, b: a > b, z3.UGT, False, True)
+
+    def __ge__(self, o):
+        return self._cmp(o, lambda a, b: a >= b, z3.UGE, False, True)
+
+    def __eq__(self, o):
+        if o is None:
+            return False
+        return self._cmp(o, lambda a, b: a == b, lambda a, b: a == b, False, False)
+
+    def __ne__(self, o):
+        if o is None:
+            return True
+        return self._cmp(o, lambda a, b: a != b, lambda a, b: a != b, True, True)
+
+    def __hash__(self):
+        return id(self)
+
+    def __bool__(self):
+        return decide(self.t != 0)
+
+    def __index__(self):
+        v = z3.simplify(self.t)
+        if z3.is_bv_value(v):
+            return v.as_signed_long() if self.signed else v.as_long()
+        raise Unsupported("symbolic machine integer used as a Python index")
+
+    __int__ = __index__
+
+    def astype(self, dt, **kw):
+        return cast_scalar(self, dt)
+
+    def __repr__(self):
+        return "SBV(%s,%s)" % (str(self.t)[:60], "i64" if self.signed else "u64")
+
+
+class SVoid:
+    """one element of a np.void view over a row of integers: equal iff all bytes equal"""
+
+    __slots__ = ("items",)
+
+    def __init__(self, items):
+        self.items = tuple(items)
+
+    def __eq__(self, o):
+        if not isinstance(o, SVoid) or len(o.items) != len(self.items):
+            return False
+        return sand(*[a == b for a, b in zip(self.items, o.items)])
+
+    def __ne__(self, o):
+        return snot(self.__eq__(o))
+
+    def __hash__(self):
+        return id(self)
+
+
+_old_cast_scalar = cast_scalar
+
+
+def cast_scalar(x, dt):  # noqa: F811
+    if isinstance(x, SBV):
+        if dt is None:
+            return x
+        dt = _np.dtype(dt)
+        if dt == _np.dtype("int64"):
+            return SBV(x.t, True)
+        if dt == _np.dtype("uint64"):
+            return SBV(x.t, False)
+        if dt.kind == "O":
+            return x
+        raise Unsupported("cast of a 64-bit machine integer to %s" % dt)
+    return _old_cast_scalar(x, dt)
+
+
+_old_ite = ite
+
+
+def ite(c, a, b):  # noqa: F811
+    if isinstance(a, SBV) or isinstance(b, SBV):
+        if isinstance(c, (bool, _np.bool_)):
+            return a if c else b
+        ref = a if isinstance(a, SBV) else b
+        return SBV(z3.If(tobool(c), ref._lift(a), ref._lift(b)), ref.signed)
+    return _old_ite(c, a, b)
+
+
+def sym_max(a, b):  # noqa: F811
+    if not is_sym(a) and not is_sym(b):
+        return a if a >= b else b
+    return ite(a >= b, a, b)
+
+
+def sym_min(a, b):  # noqa: F811
+    if not is_sym(a) and not is_sym(b):
+        return a if a <= b else b
+    return ite(a <= b, a, b)
+
+
+def is_sym(x):  # noqa: F811
+    return isinstance(x, (SNum, SBool, SBV))
